@@ -11,7 +11,7 @@ def _merge(dst, src):
 
 
 def write_evidence(prop, mod, tier, seed, results, order, wall, batch_wall, violations, known_hits,
-                   presumed_known, harness_errors, workers):
+                   presumed_known, harness_errors, workers, discarded=0):
     probes, faults = {}, {}
     keys = set()
     digests = set()
@@ -57,6 +57,7 @@ def write_evidence(prop, mod, tier, seed, results, order, wall, batch_wall, viol
         "known_finding_hits": known_hits,
         "presumed_known_unminimised": presumed_known,
         "harness_errors": len(harness_errors),
+        "discarded_invalid_cases": discarded,
         "workers": workers,
     }
     extra = getattr(mod, "extra_evidence", None)
